@@ -7,7 +7,7 @@ From Coq Require Import String List NArith ZArith Bool Lia.
 From J5V.lib Require Import Outcome.
 From J5V.gen Require Id62Gen.
 From J5V.model Require Import RulesDecl RulesWrite RulesSpec Validate RulesSpecDec RulesOneof.
-From J5V.proofs Require Import RulesProofs RulesNestedSemProofs.
+From J5V.proofs Require Import RulesProofs RulesDecides.
 Import ListNotations.
 
 Section Oneof.
